@@ -1,5 +1,5 @@
 from .. import facts
-from ..rules import gradient
+from ..rules import gradient, opacity
 
 
 def run(ck):
@@ -14,3 +14,5 @@ def run(ck):
     gradient.r9_radial_roots(ck, P)
     gradient.r10_widen_before_arithmetic(ck, P)
     gradient.r11_walker_segment_test_siblings(ck, P)
+    gradient.r12_step_matches_component(ck, P)
+    opacity.r2_opacity_flags(ck, P)       # C09-R2: a radial gradient is opaque only when every pixel has an admissible t (a < 0)
